@@ -73,6 +73,13 @@ class V2NotFound(HierV2):
     message = 'v2 not found'
 
 
+class WithClassData(JsonRpcError):
+    """a registered error class that happens to have a class attribute called 'data' (no meaning to the library)"""
+    code = 7103
+    message = 'with class data'
+    data = {'class-level': True}
+
+
 BASES = {'JsonRpcError': JsonRpcError, 'CustomBase': CustomBase, 'HierV1': HierV1, 'HierV2': HierV2}
 
 
@@ -96,7 +103,7 @@ def gen_cases(ctx):
         for v in vals:
             yield dict(part='response', id=i, result=v)
     # errors, alone and inside responses
-    registry = sorted(STANDARD) + HARNESS_CODES + [7101]
+    registry = sorted(STANDARD) + HARNESS_CODES + [7101, 7103]
     codes = registry + [1, -1, 12345, 2 ** 63, -32001]
     for code, msg in itertools.product(codes, ['m', '', 'é☃']):
         for d in [A] + vals:
@@ -149,6 +156,8 @@ def expected_cls(code, base):
     import pjrpc.common.exceptions as exc
     if base in (HierV1, HierV2):
         return {HierV1: V1Denied, HierV2: V2NotFound}[base] if code == 7101 else base
+    if code == 7103:
+        return WithClassData
     if code == 7101:
         return V2NotFound          # process-wide registry: the class defined last for a code
     if code in STANDARD:
